@@ -25,7 +25,7 @@ EXPECTED_PROBES = ['ping_between_fragments', 'many_pings_one_read',
 
 
 def plan(tier):
-    return [('seeded', 6000 if tier == 'quick' else 250000)]
+    return [('seeded', 12000 if tier == 'quick' else 250000)]
 
 
 def _ping(rng):
